@@ -51,6 +51,10 @@ def run(ctx):
   # state's count in all three modes (a post-increment count switches from the graft step one update early)
   from . import C04
   C04.ds_step_threading(ctx)
+  # "the grafting optimizer's step itself": the closed form of every graft step (SGD / AdaGrad / RMSProp / normalised / SQRT_N
+  # sign step) inside the documented pipeline
+  from . import C02
+  C02.transform_grad(ctx)
   tearfree_maybe_graft(ctx)
   tearfree_dispatch(ctx)
   tearfree_norm_optimisers(ctx)
